@@ -122,9 +122,12 @@ def check(ctx):
     ctx.check(fs == ["[_b0 for _b0 in block.design if isinstance(_b0, DerivedFactor)]"], R, f, "all derived factors", "implied derived factors are checked too (block.design, not act_design)",
               "derived_factors is %s" % fs)
     # argument shaping is the same in generation and in the report
-    chunks = [ast.unparse(s) for s in statements(f.node) if isinstance(s, ast.If) and ast.unparse(s.test) == "level.window.width != 1"]
-    ctx.check(len(chunks) == 2 and all("args = list(chunk_dict(args, level.window.width))" in c for c in chunks), R, f, "argument shaping",
-              "windows wider than 1 are passed as per-position dictionaries, in evaluation and in the report", "argument shaping (chunk_dict when width != 1) changed")
+    Fg = Facts(f)
+    use1 = [x for x in Fg.stmts if isinstance(x, ast.Assign) and dotted(x.targets[0]) == "result"]
+    use2 = [x for x in Fg.stmts if isinstance(x, ast.Expr) and "block.errors.add" in ast.unparse(x) and "args" in [n.id for n in ast.walk(x) if isinstance(n, ast.Name)]]
+    forms = [str(Fg.at(x, ast.Name(id="args", ctx=ast.Load()))) for x in use1 + use2]
+    ctx.check(len(use1) == 1 and len(use2) == 1 and len(set(forms)) == 1 and forms[0].startswith("ite((1 != level.window.width), list(chunk_dict(") , R, f, "argument shaping",
+              "windows wider than 1 are passed as per-position dictionaries, in evaluation and in the report", "argument shaping (chunk_dict when width != 1) differs between evaluation and report or changed: %s" % forms)
 
     # ---- fatal convention
     R = "C15.fatal"
